@@ -2,6 +2,7 @@
 import functools
 import gc_rules as G
 import listing as L
+import label as LB
 
 CONTAINERS = "emap 0.0.13 / micromap 0.0.19 / microstack 0.0.7 as audited (DESIGN §3)"
 HAND = "hand argument DESIGN §5.0: rules ⇒ invariants I1–I3 ⇒ statement"
@@ -70,6 +71,15 @@ PROPS = {
         "rules": [("IN1", L.in1), ("IN2", L.in2), ("IN3", L.in3), ("IN4", L.in4)],
         "explanation": "IN1 guarded recursion, IN2 per-edge line, IN3 Debug/Display present filter + edges + data, IN4 v_print marker and labels.",
         "trusted": [RUSTC, CONTAINERS],
+        "assumptions": [],
+    },
+    "C17": {
+        "claim": "Decides the structural clauses LB1–LB5: the single-character variant is chosen by a character count (chars-derived), never by the UTF-8 byte length; a character is stored into the 8-slot array only on the edge where its index is in 0..=7 and the other edge returns Err, with every character of the text visited; the alpha index is the parsed text after exactly one skipped character and the parse error is propagated; the padding character written by from_str is the one Debug filters, the alpha prefix tested is the one printed, the Greek arm prints exactly its character, Display delegates to Debug. Does not decide round-trip equality or injectivity over all strings.",
+        "note": "Trusted: rustc front end + engine; std str::chars/parse. The value-level round trip and injectivity are not decided; these clauses are necessary conditions of it.",
+        "technique": "MIR taint (byte length vs char count) + guard + writer/reader constant agreement",
+        "rules": [("LB1", LB.lb1), ("LB2", LB.lb2), ("LB3", LB.lb3), ("LB4/LB5", LB.lb45)],
+        "explanation": "LB1 unit of the single-char decision, LB2 bounded store / Err on over-long, LB3 index parse propagated, LB4/LB5 writer/reader constants agree.",
+        "trusted": [RUSTC],
         "assumptions": [],
     },
 }
